@@ -7,6 +7,8 @@ import MptModel.Lemmas.Encode
 import MptModel.Lemmas.EncodeZpe
 import MptModel.Lemmas.EncodeString
 import MptModel.Lemmas.ArrayPush
+import MptModel.Lemmas.EncodeDelete
+import MptModel.Impl.CodecTable
 import MptModel.Lemmas.DecodeCommand
 namespace Mpt.C01
 open Mpt.Cobs Mpt.Codec
@@ -170,6 +172,78 @@ set_option maxRecDepth 8000 in
 example : (arrayMessage (.cobs .zpeR) 0xBE {} [[7, 0], [0, 9]]).toOption.map
     (fun a => (a.buf.getD []).take a.st.done) = some (encChunks .zpeR [[7, 0], [0, 9]]) := by decide
 
+/-! ### message deletion and the uninitialized window -/
+
+/-- Deleting the message in progress (`base->iov_base == NULL`, one message) restores the encoder state in
+    front of it, whatever has been pushed of it in whatever pieces — including blocks of it that were already
+    counted as finished data: `done` is back at the end of the finished frames `pre`, no block is open, the
+    window is untouched and ready for the next message. -/
+theorem delete_restores (v : Variant) (st : EncState) (win pre : List Byte) (ms : List (Byte × Bool))
+    (h : EncInvM v st win pre ms) (hctx : st.ctx ≠ 0) (hpre : pre = [] ∨ pre.getLast? = some 0) :
+    encodeCobsDel st win 1 = .ok ⟨{ ctx := 0, done := pre.length, scratch := 0 }, win, pre.length⟩ ∧
+    EncInvM v { ctx := 0, done := pre.length, scratch := 0 } win pre [] :=
+  encodeCobsDel_abort v st win pre ms h hctx hpre
+
+example : (encodeCobsDel { ctx := 4, done := 7, scratch := 2 } [3, 0x61, 0x61, 0, 3, 0x62, 0x62, 2, 0x63] 1).toOption.map
+    (fun o => o.st.done) = some 4 := by decide
+
+/-- deleting a finished frame (no message in progress) restores the state in front of that frame -/
+theorem delete_frame (st : EncState) (win pre body : List Byte) (hs : st.scratch = 0) (hc : st.ctx = 0)
+    (hd : st.done = (pre ++ body ++ [0]).length) (hw : win.take st.done = pre ++ body ++ [0])
+    (hl : st.done ≤ win.length) (hnz : ∀ x ∈ body, x ≠ 0) (hpre : pre = [] ∨ pre.getLast? = some 0) :
+    encodeCobsDel st win 1 = .ok ⟨{ ctx := 0, done := pre.length, scratch := 0 }, win, pre.length⟩ :=
+  encodeCobsDel_frame st win pre body hs hc hd hw hl hnz hpre
+
+example : (encodeCobsDel { done := 8 } [3, 0x61, 0x61, 0, 3, 0x62, 0x62, 0] 1).toOption.map (fun o => o.st.done) = some 4 := by decide
+
+/-- with an uninitialized window (NULL base, length 0) every encoder refuses and stores nothing -/
+theorem null_window_refuses (c : Codec) (st : EncState) (src : Option (List Byte)) (o : EncOut) :
+    encodeNull c st src ≠ .ok o := by
+  unfold encodeNull
+  cases c with
+  | cobs v => simp only; split <;> simp
+  | command =>
+    simp only
+    split
+    · simp
+    · split
+      · simp
+      · cases src with
+        | none => simp
+        | some b => simp only; split <;> simp
+
+/-! ### the coding number -> function pairing (encoder.c, decoder.c) and the name table (encoding.c) -/
+
+/-- the framing a coding number stands for (convert.h) -/
+def specFraming (code : Nat) : Option Codec :=
+  if code = 1 then some .command else (Variant.ofCoding code).map .cobs
+
+/-- For every coding number the encoder and the decoder the library hands out implement the same framing,
+    namely the one the number stands for (the tables are regenerated from encoder.c / decoder.c on every
+    run: a swapped or missing `case` breaks this theorem). -/
+theorem pairing_consistent : ∀ code, code < 128 →
+    encoderOf code = specFraming code ∧ decoderOf code = specFraming code := by decide
+
+/-- character codes of the name a framing has in the op lines and in the library's name table -/
+def variantNameCodes : Variant → List Nat
+  | .cobs => [99, 111, 98, 115]                                   -- "cobs"
+  | .cobsR => [99, 111, 98, 115, 47, 114]                         -- "cobs/r"
+  | .zpe => [99, 111, 98, 115, 47, 122, 112, 101]                 -- "cobs/zpe"
+  | .zpeR => [99, 111, 98, 115, 47, 122, 112, 101, 43, 114]       -- "cobs/zpe+r"
+
+/-- the name table: every framing is found under its name (without regard to letter case) and its coding
+    number is reported under a name that stands for the same number; unknown names are refused -/
+theorem names_consistent :
+    (∀ v : Variant, encodingValue (variantNameCodes v) = v.coding ∧
+      (encodingType v.coding).map encodingValue = some (v.coding : Int)) ∧
+    encodingValue [99, 111, 109, 109, 97, 110, 100] = 1 ∧ (encodingType 1).map encodingValue = some 1 ∧
+    encodingValue [67, 79, 66, 83, 47, 82] = 3 ∧ encodingValue [99, 111, 98, 115, 47, 120] = -2 := by
+  refine ⟨?_, by decide, by decide, by decide, by decide⟩
+  intro v
+  cases v <;> exact ⟨by decide, by decide⟩
+
+example : Variant.cobsR.name.toList.map Char.toNat = variantNameCodes .cobsR := by decide
+
 /-! ### command text: the models of mpt_encode_string / mpt_decode_command -/
 
 /-- the model of `mpt_encode_string` produces the reference frame `m ++ [0]` (one push and the termination
@@ -184,6 +258,39 @@ theorem cmd_encoder_refuses (st : EncState) (win m : List Byte) (hs : st.scratch
     (hz : (0 : Byte) ∈ m.take (min m.length (win.length - st.done))) (hd : st.done < win.length) (hm : m ≠ []) :
     encodeString st win (some m) = .err .BadEncoding :=
   encodeString_refuses st win m hs hz hd hm
+
+/-- The separator-pattern mode of `mpt_encode_string` (`scratch != 0`) and other delimiters (`_ctx != 0`) are
+    not reachable through the library: reset clears both fields and no call of the encoder sets them, so from
+    the reset state every successful call is the zero-delimiter mode the model covers. -/
+theorem cmd_encoder_closed (st : EncState) (win : List Byte) (src : Option (List Byte)) (o : EncOut)
+    (h : encodeString st win src = .ok o) :
+    st.scratch = 0 ∧ st.ctx = 0 ∧ o.st.scratch = 0 ∧ o.st.ctx = 0 := by
+  unfold encodeString at h
+  by_cases hs : st.scratch ≠ 0 ∨ st.ctx ≠ 0
+  · rw [if_pos hs] at h; simp at h
+  · rw [if_neg hs] at h
+    have h0 : st.scratch = 0 ∧ st.ctx = 0 := by
+      constructor <;> (apply Classical.byContradiction; intro hc; exact hs (by simp [hc]))
+    refine ⟨h0.1, h0.2, ?_⟩
+    simp only at h
+    split at h
+    · simp at h
+    cases src with
+    | none =>
+      simp only at h
+      split at h
+      · simp at h
+      · unfold wr at h
+        split at h
+        · simp only [CRes.bind_ok, CRes.pure_eq, CRes.ok.injEq] at h
+          rw [← h]; exact h0
+        · simp [Bind.bind, CRes.bind] at h
+    | some bytes =>
+      simp only at h
+      repeat' split at h
+      all_goals first
+        | (simp at h; done)
+        | (simp only [CRes.ok.injEq] at h; rw [← h]; exact h0)
 
 /-- the model of `mpt_decode_command`, on a state between two messages with the two bytes of head room the
     header needs and a complete frame `body ++ [0]` at the input position: it delivers (return 1) exactly
